@@ -29,10 +29,29 @@ def get_rolling_diff(periods: int = 1) -> Callable[[Array], Array]:
         whose values are the diffs
     """
 
+    if periods <= 0:
+        return _get_rolling_diff_backward(-periods)
+
     def rolling_diff(x):
         out_arr = jnp.empty_like(x)
         out_arr = out_arr.at[periods:].set(x[periods:] - x[:-periods])
         out_arr = out_arr.at[:periods].set(jnp.nan)
+        return out_arr
+
+    return rolling_diff
+
+
+def _get_rolling_diff_backward(periods: int) -> Callable[[Array], Array]:
+    """get_rolling_diff for a non-positive index distance (-periods), as pandas.Series.diff
+    handles it: the difference of each value at index i to the value at index i+periods
+    """
+
+    def rolling_diff(x):
+        if periods == 0:
+            return x - x
+        out_arr = jnp.empty_like(x)
+        out_arr = out_arr.at[:-periods].set(x[:-periods] - x[periods:])
+        out_arr = out_arr.at[-periods:].set(jnp.nan)
         return out_arr
 
     return rolling_diff
